@@ -100,3 +100,9 @@ C("C17",
   "Trusted: naive interpolation via polynom::interpolate (C20) and field ops (C07/C08); Air::evaluate_transition of the family is the description. The verifier side is pinned by C01 acceptance of the same instances.",
   "definition oracle at random points + one-hot coefficient discovery",
   "DESIGN.md §5 C17")
+
+C("C04",
+  "The public coin of the real prover and verifier is replaced (through the RandomCoin type parameter) by a recording coin that logs every new/reseed/draw/check_leading_zeros/draw_integers with its data. For every proof of a C01-family shape (single and multi segment, Lagrange kernel, 0..max FRI layers, grinding 0..16, three extension degrees, 12 field x hasher combinations) an offline checker verifies both logs against the protocol's trace specification generated from the shape, compares every absorbed datum with the value recomputed from the proof (commitments, hashes of the OOD trace frame and OOD evaluations, nonce, seed = context || public inputs), replays the log through the executable coin model, perturbs single absorbed data and requires every later field-element challenge to change, and requires prover and verifier logs to be identical up to the verifier's unused extra FRI challenge and its proof-of-work check.",
+  "Trusted: the trace specification written from the protocol description; the coin model (C19). Proof-of-work search calls are counted only. Single-threaded build.",
+  "recorded event log + offline trace-specification checker + model replay",
+  "DESIGN.md §5 C04")
